@@ -34,13 +34,16 @@ sid = sys.argv[1]
 d = "/verif/seeded/%s" % sid
 meta = json.load(open(os.path.join(d, "meta.json")))
 confirm = ""
-p = "/tmp/seed/%s/CONFIRM.txt" % sid
+root = "/tmp/seed2/%s" % sid[:-1] if sid.endswith("b") else "/tmp/seed/%s" % sid
+p = root + "/CONFIRM.txt"
 if os.path.exists(p):
-    confirm = open(p).read()
+    confirm = "\n".join(l for l in open(p).read().split("\n") if "NOT PASSING" not in l or "longtests" in l)
+    if os.path.exists(root + "/CONFIRM2.txt"):
+        confirm += "\n-- demonstration re-run with its source file installed as RUN.txt says --\n" + open(root + "/CONFIRM2.txt").read()
 meta["breaks_property"] = meta.get("property", sid)
 meta["needs_to_manifest"] = meta.get("needs", "")
 meta["confirmed_by_main_builder"] = confirm.strip().split("\n") if confirm else meta.get("confirmed_by_main_builder", "pending")
-meta["what_was_run"] = ["scratch worktree /tmp/seed/%s (git worktree of /repo HEAD): demo without the patch passes, with the patch fails, cargo test --workspace with the patch keeps all 669 baseline tests green (lib/baseline_compare.py)" % sid,
+meta["what_was_run"] = ["scratch worktree %s (git worktree of /repo HEAD): demo without the patch passes, with the patch fails, cargo test --workspace with the patch keeps all 669 baseline tests green (lib/baseline_compare.py)" % root,
                         "git -C /repo apply seeded/%s/patch.diff; %s; git -C /repo apply -R ... (lib/seed_try.sh)" % (sid, DETECT.get(sid, {}).get("checks", "?"))]
 meta["detected_by"] = DETECT.get(sid, {})
 json.dump(meta, open(os.path.join(d, "meta.json"), "w"), indent=1)
